@@ -593,7 +593,9 @@ func (r *runner) createTasks(ctx context.Context, nodeMap map[string]any, optMap
 		}
 
 		nextTasks = append(nextTasks, &task{
-			ctx:     forwardCheckPoint(setNodeKey(ctx, nodeKey), nodeKey),
+			// a newly scheduled task starts fresh: only tasks restored from a checkpoint
+			// (restoreTasks) may be handed the checkpoint of their nested graph
+			ctx:     clearCheckPoint(setNodeKey(ctx, nodeKey)),
 			nodeKey: nodeKey,
 			call:    call,
 			input:   nodeInput,
